@@ -109,3 +109,75 @@ func runC01Neighbours(x *X) {
 		x.Nontrivial(fmt.Sprint(pr.name, place))
 	})
 }
+
+// family "in-a-big-table": the same observations for an item stored in a table that already holds many cells
+// (the ladder and "stale until Update" must not depend on how big the table is or where in it the cell sits).
+func runC01BigTable(x *X) {
+	sizes := [][2]int{{0, 0}, {63, 4}, {64, 4}, {65, 4}, {300, 4}, {1100, 3}, {20, 60}, {5000, 1}}
+	paths := []string{"AddRowItems(item, ...)", "NewRow().Add(NewCell(item)) + AddRow", "AppendNewRow().Add(NewCell(item))", "Row.Add on the last attached row"}
+	masks := []int{mS, mS | mG, mE | mS, mS | mW | mH}
+	x.Explore("in-a-big-table", ExploreOpts{ShardDepth: 2, Bound: fmt.Sprintf("%d table sizes (rows x columns up to 5000 cells) filled first x %d storing paths x %d pointer item types; text observed after storing, after mutation (stale), after Update", len(sizes), len(paths), len(masks))}, func(c *Chooser) {
+		sz := sizes[c.Choose(len(sizes))]
+		path := c.Choose(len(paths))
+		mask := masks[c.Choose(len(masks))]
+		t := tabular.New()
+		hdr := make([]interface{}, sz[1])
+		for i := range hdr {
+			hdr[i] = fmt.Sprintf("h%d", i)
+		}
+		if sz[1] > 0 {
+			t.AddHeaders(hdr...)
+		}
+		for r := 0; r < sz[0]; r++ {
+			row := make([]interface{}, sz[1])
+			for i := range row {
+				row[i] = r*sz[1] + i
+			}
+			t.AddRowItems(row...)
+		}
+		it, setF := mkItem(mask, true, ItemF{S: "old", G: "gold", E: "eold", W: 3, H: 1})
+		c.Logf("table of %d rows x %d columns filled; then %s with a pointer item (mask %b)", sz[0], sz[1], paths[path], mask)
+		switch path {
+		case 0:
+			t.AddRowItems(it, "other")
+		case 1:
+			t.AddRow(tabular.NewRow().Add(tabular.NewCell(it)).Add(tabular.NewCell("other")))
+		case 2:
+			t.AppendNewRow().Add(tabular.NewCell(it)).Add(tabular.NewCell("other"))
+		case 3:
+			if t.NRows() == 0 {
+				t.AddRowItems("first")
+			}
+			rr := t.AllRows()
+			rr[len(rr)-1].Add(tabular.NewCell(it))
+		}
+		x.Transition(1)
+		rr := t.AllRows()
+		last := rr[len(rr)-1]
+		cs := last.Cells()
+		var cell *tabular.Cell
+		for i := range cs {
+			if cs[i].Item() == it {
+				cell = &cs[i]
+			}
+		}
+		tags := []string{"big_table", fmt.Sprintf("cells_before:%d", sz[0]*sz[1]), "path:" + paths[path]}
+		if cell == nil {
+			x.Fail("C01.item", tags, "no cell of the last row holds the item that was just stored there")
+			return
+		}
+		want := func(f ItemF) string { return refText(mask, f, it) }
+		desc := fmt.Sprintf("pointer item mask %b", mask)
+		c01Observe(x, cell, want(ItemF{S: "old", G: "gold", E: "eold"}), it, tags, "after storing", desc)
+		setF(ItemF{S: "new", G: "gnew", E: "enew", W: 3, H: 1})
+		x.Clause("C01.stale_until_update")
+		if got := cell.String(); got != want(ItemF{S: "old", G: "gold", E: "eold"}) {
+			x.Fail("C01.stale_until_update", append(tags, "text_follows_item_without_update"), "item mutated, Update() NOT called: cell text is %q, it must still be %q (table had %d cells when the item was added via %s)", got, want(ItemF{S: "old", G: "gold", E: "eold"}), sz[0]*sz[1], paths[path])
+			return
+		}
+		cell.Update()
+		c01Observe(x, cell, want(ItemF{S: "new", G: "gnew", E: "enew"}), it, append(tags, "after_update"), "after Update", desc)
+		x.State(fmt.Sprint(sz, path, mask))
+		x.Nontrivial(fmt.Sprint(sz, path, mask))
+	})
+}
